@@ -21,29 +21,31 @@ namespace ScriggoV.ConstEval
 open ScriggoV.Spec.GoConst
 open ScriggoV.Gen.ConstInt
 
-/-- value of a constant expression: a numeric constant of some type, or an untyped boolean -/
+/-- value of a constant expression: a numeric constant of some type (its imaginary part is zero
+unless the type is untyped complex), or an untyped boolean -/
 inductive Val where
-  | num (ty : Ty) (v : Rat)
+  | num (ty : Ty) (v : CQ)
   | bool (b : Bool)
   deriving DecidableEq, Repr
 
 /-! ## the exact evaluator (specification) -/
 
 /-- a result of type `ty` must be representable (typed), within 512 bits (untyped integer kinds);
-floating-point values are not limited here (the generator keeps them moderate) -/
-def checkTy (ty : Ty) (v : Rat) : R Val :=
+floating-point and complex values are not limited here (the generator keeps them moderate) -/
+def checkTy (ty : Ty) (v : CQ) : R Val :=
   match ty with
   | .untyped u =>
-    if u.isInteger && !fitsUntyped v.num then .error .untypedOverflow else .ok (.num ty v)
-  | .typed k => if representable k v.num then .ok (.num ty v) else .error .overflow
+    if u.isInteger && !fitsUntyped v.re.num then .error .untypedOverflow else .ok (.num ty v)
+  | .typed k => if representable k v.re.num then .ok (.num ty v) else .error .overflow
 
-/-- conversion of a constant to an integer kind: its value must be an integer in the range -/
-def intoKind (k : Kind) (v : Rat) : R Unit :=
-  if !isIntegral v then .error .truncated
-  else if representable k v.num then .ok () else .error .overflow
+/-- conversion of a constant to an integer kind: its value must be real, an integer, in the range -/
+def intoKind (k : Kind) (v : CQ) : R Unit :=
+  if !v.isReal || !isIntegral v.re then .error .truncated
+  else if representable k v.re.num then .ok () else .error .overflow
 
-/-- operand types of a binary operation: an untyped operand is converted to the other's type -/
-def unify (ta tb : Ty) (x y : Rat) : R Ty :=
+/-- operand types of a binary operation: an untyped operand is converted to the other's type; the
+kind of two untyped operands is the larger kind -/
+def unify (ta tb : Ty) (x y : CQ) : R Ty :=
   match ta, tb with
   | .untyped u, .untyped u' => .ok (.untyped (u.max u'))
   | .typed k, .untyped _ => do intoKind k y; .ok (.typed k)
@@ -66,15 +68,17 @@ def exactUn (op : UnOp) (v : Val) : R Val :=
   | .num ty x =>
     match op with
     | .plus => .ok (.num ty x)
-    | .neg => checkTy ty (-x)
-    | .compl => if ty.isInteger then checkTy ty (complTy ty x.num : Int) else .error .invalidOp
+    | .neg => checkTy ty ⟨-x.re, -x.im⟩
+    | .compl => if ty.isInteger then checkTy ty (CQ.ofReal (complTy ty x.re.num : Int)) else .error .invalidOp
   | .bool _ => .error .notInteger
 
 def exactBin (op : Arith) (va vb : Val) : R Val :=
   match va, vb with
   | .num ta x, .num tb y => do
     let ty ← unify ta tb x y
-    match arithQ ty.isInteger op x y with
+    let r := if ty = .untyped .complex then arithC op x y
+             else (arithQ ty.isInteger op x.re y.re).map CQ.ofReal
+    match r with
     | .error .divZero => .error .divZero
     | .error .notDefined => .error .invalidOp
     | .ok r => checkTy ty r
@@ -83,29 +87,55 @@ def exactBin (op : Arith) (va vb : Val) : R Val :=
 def exactCmp (op : Cmp) (va vb : Val) : R Val :=
   match va, vb with
   | .num ta x, .num tb y => do
-    let _ ← unify ta tb x y
-    .ok (.bool (cmpQ op x y))
+    let ty ← unify ta tb x y
+    if ty = .untyped .complex then
+      match cmpC op x y with
+      | some b => .ok (.bool b)
+      | none => .error .invalidOp
+    else .ok (.bool (cmpQ op x.re y.re))
   | _, _ => .error .notInteger
 
-/-- the result of shifting an untyped floating-point constant (which must be an integer) is an
-untyped integer constant -/
+/-- the result of shifting an untyped floating-point or complex constant (which must be an
+integer) is an untyped integer constant -/
 def shiftTy : Ty → Ty
   | .untyped .float => .untyped .int
+  | .untyped .complex => .untyped .int
   | t => t
 
 def exactShift (rule : ShiftRule) (isLeft : Bool) (va vb : Val) : R Val :=
   match va, vb with
   | .num ta x, .num _ c => do
-    if !isIntegral x then .error .truncated
-    if !isIntegral c then .error .truncated
-    rule isLeft c.num
-    checkTy (shiftTy ta) ((if isLeft then shiftLeft x.num c.num.toNat else shiftRight x.num c.num.toNat : Int))
+    if !x.isReal || !isIntegral x.re then .error .truncated
+    if !c.isReal || !isIntegral c.re then .error .truncated
+    rule isLeft c.re.num
+    checkTy (shiftTy ta) (CQ.ofReal
+      ((if isLeft then shiftLeft x.re.num c.re.num.toNat else shiftRight x.re.num c.re.num.toNat : Int)))
   | _, _ => .error .notInteger
 
+/-- `real(x)` / `imag(x)` of an untyped numeric constant: an untyped floating-point constant -/
+def exactPart (imag : Bool) (v : Val) : R Val :=
+  match v with
+  | .num (.untyped _) x => .ok (.num (.untyped .float) (CQ.ofReal (if imag then x.im else x.re)))
+  | _ => .error .invalidOp
+
+/-- `complex(a, b)` of two untyped real constants: an untyped complex constant -/
+def exactComplex (va vb : Val) : R Val :=
+  match va, vb with
+  | .num (.untyped _) x, .num (.untyped _) y =>
+    if !x.isReal || !y.isReal then .error .truncated else .ok (.num (.untyped .complex) ⟨x.re, y.re⟩)
+  | _, _ => .error .invalidOp
+
 def evalExact (rule : ShiftRule) : Expr → R Val
-  | .lit n => if fitsUntyped n then .ok (.num (.untyped .int) (n : Int)) else .error .tooLarge
-  | .rlit n => .ok (.num (.untyped .rune) (n : Int))
-  | .flit n d => .ok (.num (.untyped .float) (mkRat n d))
+  | .lit n => if fitsUntyped n then .ok (.num (.untyped .int) (CQ.ofReal (n : Int))) else .error .tooLarge
+  | .rlit n => .ok (.num (.untyped .rune) (CQ.ofReal (n : Int)))
+  | .flit n d => .ok (.num (.untyped .float) (CQ.ofReal (mkRat n d)))
+  | .ilit n d => .ok (.num (.untyped .complex) ⟨0, mkRat n d⟩)
+  | .re e => do exactPart false (← evalExact rule e)
+  | .im e => do exactPart true (← evalExact rule e)
+  | .cx a b => do
+    let va ← evalExact rule a
+    let vb ← evalExact rule b
+    exactComplex va vb
   | .conv k e => do exactConv k (← evalExact rule e)
   | .un op e => do exactUn op (← evalExact rule e)
   | .bin op a b => do
@@ -325,10 +355,106 @@ def nNeg (c : NC) : R NC :=
   | .bigf v => .ok (.bigf (-v))
   | .rat v => .ok (.rat (-v))
 
+/-! ## complex constants: `complexConst{r, i}` with real constants as parts (hand-modelled) -/
+
+inductive CC where
+  | re (c : NC)
+  | cplx (r i : NC)
+  deriving DecidableEq, Repr
+
+def CC.val : CC → CQ
+  | .re c => ⟨c.val, 0⟩
+  | .cplx r i => ⟨r.val, i.val⟩
+
+def nZero (c : NC) : Bool := c.val == 0
+
+/-- `toSameConstImpl` with a complex constant: the real one becomes `complexConst{c, int64Const(0)}` -/
+def asCplx : CC → NC × NC
+  | .re c => (c, .int (.small 0#64))
+  | .cplx r i => (r, i)
+
+/-- the code discards the errors of the operations on the parts; inside the exact fragment there is
+none — `inexact` is handed on, anything else would be a nil constant (a fault) -/
+def part (r : R NC) : R NC :=
+  match r with
+  | .ok c => .ok c
+  | .error .inexact => .error .inexact
+  | .error _ => .error .fault
+
+def cArith (op : Arith) (a b : CC) : R CC :=
+  match a, b with
+  | .re x, .re y => do .ok (.re (← nArith op x y))
+  | _, _ =>
+    let (ar, ai) := asCplx a
+    let (br, bi) := asCplx b
+    match op with
+    | .add | .sub => do .ok (.cplx (← part (nArith op ar br)) (← part (nArith op ai bi)))
+    | .mul => do
+      let ac ← part (nArith .mul ar br)
+      let bd ← part (nArith .mul ai bi)
+      let bc ← part (nArith .mul ai br)
+      let ad ← part (nArith .mul ar bi)
+      .ok (.cplx (← part (nArith .sub ac bd)) (← part (nArith .add bc ad)))
+    | .quo => do
+      if nZero br && nZero bi then .error .divZero
+      let cc ← part (nArith .mul br br)
+      let dd ← part (nArith .mul bi bi)
+      let s ← part (nArith .add cc dd)
+      if nZero s then .error .divZero
+      let ac ← part (nArith .mul ar br)
+      let bd ← part (nArith .mul ai bi)
+      let bc ← part (nArith .mul ai br)
+      let ad ← part (nArith .mul ar bi)
+      let re ← part (nArith .add ac bd)
+      let im ← part (nArith .sub bc ad)
+      let re' ← applySteps (asFloatingPoint re.impl) re
+      let im' ← applySteps (asFloatingPoint im.impl) im
+      .ok (.cplx (← part (nArith .quo re' s)) (← part (nArith .quo im' s)))
+    | _ => .error .invalidOp
+
+def cCmp (op : Cmp) (a b : CC) : R Bool :=
+  match a, b with
+  | .re x, .re y => nCmp op x y
+  | _, _ =>
+    let (ar, ai) := asCplx a
+    let (br, bi) := asCplx b
+    match op with
+    | .eq => do .ok ((← nCmp .eq ar br) && (← nCmp .eq ai bi))
+    | .ne => do .ok ((← nCmp .ne ar br) || (← nCmp .ne ai bi))
+    | _ => .error .invalidOp
+
+/-- the real constant a complex constant stands for where an integer is needed: its imaginary part
+must be zero ("truncated to integer" otherwise) -/
+def cReal (c : CC) : R NC :=
+  match c with
+  | .re c => .ok c
+  | .cplx r i => if nZero i then .ok r else .error .truncated
+
+def cRep (k : Kind) (c : CC) : R SC := do nRep k (← cReal c)
+
+def cNeg (c : CC) : R CC :=
+  match c with
+  | .re c => do .ok (.re (← nNeg c))
+  | .cplx r i => do .ok (.cplx (← nNeg r) (← nNeg i))
+
+def cShift (isLeft : Bool) (a c : CC) : R NC := do
+  let a' ← cReal a
+  match c with
+  | .re c => nShift isLeft a' c
+  | .cplx r i =>
+    -- shiftConstError: representedBy(uint) of the complex count
+    if nZero i then nShift isLeft a' r else .error .truncated
+
+/-- `asFloatingPoint(c1)`: generated steps for the real implementations, a complexConst is left alone -/
+def cAsFloatingPoint (a : CC) : R CC :=
+  match a with
+  | .re c => do .ok (.re (← applySteps (asFloatingPoint c.impl) c))
+  | .cplx _ _ => .ok a
+
 /-! ## the checker's composition -/
 
 inductive SVal where
-  | num (ty : Ty) (c : NC)
+  | num (ty : Ty) (c : CC)
   | bool (b : Bool)
   deriving DecidableEq, Repr
 
@@ -336,22 +462,47 @@ def SVal.abs : SVal → Val
   | .num ty c => .num ty c.val
   | .bool b => .bool b
 
+/-- `reflect.Kind` of the type of a constant: untyped constants have the default type of their kind -/
+def ukCode : UKind → Nat
+  | .int => kInt | .rune => kInt32Code | .float => kFloat64 | .complex => kComplex128
+
+def tyCode : Ty → Nat
+  | .untyped u => ukCode u
+  | .typed k => kindCode k
+
+def ukOfCode (n : Nat) : Option UKind :=
+  [UKind.int, .rune, .float, .complex].find? (fun u => ukCode u == n)
+
+def tyIsUntyped : Ty → Bool
+  | .untyped _ => true
+  | .typed _ => false
+
+/-- type of the result of a constant operation, from the generated `foldResultKind` -/
+def resultTy (isShift : Bool) (ta tb : Ty) : R Ty :=
+  match ta with
+  | .typed k => .ok (.typed k)
+  | .untyped _ =>
+    match ukOfCode (foldResultKind false isShift true (tyCode ta) (tyCode tb)) with
+    | some u => .ok (.untyped u)
+    | none => .error .fault
+
 /-- after a typed operation the checker calls `representedBy(type)` and keeps its result -/
-def sTyped (ty : Ty) (c : NC) : R SVal :=
+def sTyped (ty : Ty) (c : CC) : R SVal :=
   match ty with
   | .untyped _ => .ok (.num ty c)
-  | .typed k => do .ok (.num ty (.int (← nRep k c)))
+  | .typed k => do .ok (.num ty (.re (.int (← cRep k c))))
 
-def sConvOperands (ta tb : Ty) (a b : NC) : R (Ty × NC × NC) :=
+/-- an untyped operand next to a typed one is converted to its type -/
+def sConvOperands (ta tb : Ty) (a b : CC) : R (Ty × Ty × CC × CC) :=
   match ta, tb with
-  | .untyped u, .untyped u' => .ok (.untyped (u.max u'), a, b)
-  | .typed k, .untyped _ => do .ok (.typed k, a, .int (← nRep k b))
-  | .untyped _, .typed k => do .ok (.typed k, .int (← nRep k a), b)
-  | .typed k, .typed k' => if k = k' then .ok (.typed k, a, b) else .error .mismatched
+  | .untyped _, .untyped _ => .ok (ta, tb, a, b)
+  | .typed k, .untyped _ => do .ok (ta, ta, a, .re (.int (← cRep k b)))
+  | .untyped _, .typed k => do .ok (tb, tb, .re (.int (← cRep k a)), b)
+  | .typed k, .typed k' => if k = k' then .ok (ta, tb, a, b) else .error .mismatched
 
 def sConv (k : Kind) (v : SVal) : R SVal :=
   match v with
-  | .num _ c => do .ok (.num (.typed k) (.int (← nRep k c)))
+  | .num _ c => do .ok (.num (.typed k) (.re (.int (← cRep k c))))
   | .bool _ => .error .notInteger
 
 /-- kind of the type handed to `unaryOp` for `^`: `int` / `int32` for untyped integer / rune constants -/
@@ -366,52 +517,84 @@ def sUn (op : UnOp) (v : SVal) : R SVal :=
     match op with
     | .plus => .ok (.num ty c)
     | .neg => do
-      let r ← nNeg c
+      let r ← cNeg c
       match ty with
       | .untyped _ => .ok (.num ty r)
       | .typed k => do
-        let _ ← nRep k r       -- checked, result not kept
+        let _ ← cRep k r       -- checked, result not kept
         .ok (.num ty r)
     | .compl =>
       if ty.isInteger then
         match c with
-        | .int c => do .ok (.num ty (.int (← sUnary .compl (complCode ty) c)))
+        | .re (.int c) => do .ok (.num ty (.re (.int (← sUnary .compl (complCode ty) c))))
         | _ => .error .fault
       else .error .invalidOp
   | .bool _ => .error .notInteger
 
-/-- `asFloatingPoint(c1)` before a division whose kind is not an integer kind (generated steps) -/
-def sAsFloatingPoint (ty : Ty) (op : Arith) (a : NC) : R NC :=
-  if op == .quo && !ty.isInteger then applySteps (asFloatingPoint a.impl) a else .ok a
-
+/-- the both-constants path of `typechecker.binaryOp` for an arithmetic operator: conversion of an
+untyped operand, the *generated* kind selection (`foldOpKind`, `foldAsFloat`), `c1.binaryOp(op, c2)`,
+`representedBy` for typed operands, the *generated* result type -/
 def sBin (op : Arith) (va vb : SVal) : R SVal :=
   match va, vb with
   | .num ta a, .num tb b => do
-    let (ty, a', b') ← sConvOperands ta tb a b
-    let a'' ← sAsFloatingPoint ty op a'
-    sTyped ty (← nArith op a'' b')
+    let (ta', tb', a', b') ← sConvOperands ta tb a b
+    let kind := foldOpKind (tyIsUntyped ta') (tyCode ta') (tyCode tb')
+    let a'' ← if foldAsFloat (op == .quo) kind then cAsFloatingPoint a' else .ok a'
+    let r ← cArith op a'' b'
+    sTyped (← resultTy false ta' tb') r
   | _, _ => .error .notInteger
 
 def sCmpV (op : Cmp) (va vb : SVal) : R SVal :=
   match va, vb with
   | .num ta a, .num tb b => do
-    let (_, a', b') ← sConvOperands ta tb a b
-    .ok (.bool (← nCmp op a' b'))
+    let (_, _, a', b') ← sConvOperands ta tb a b
+    .ok (.bool (← cCmp op a' b'))
   | _, _ => .error .notInteger
 
 def sShiftV (isLeft : Bool) (va vb : SVal) : R SVal :=
   match va, vb with
-  | .num ta a, .num _ c => do sTyped (shiftTy ta) (← nShift isLeft a c)
+  | .num ta a, .num tb c => do
+    let r ← cShift isLeft a c
+    sTyped (← resultTy true ta tb) (.re r)
   | _, _ => .error .notInteger
+
+/-- `real(x)` / `imag(x)`: `constant.real()` / `.imag()` — the part as it is stored (the imaginary part
+of a real constant is `int64Const(0)`), with type untyped float -/
+def sPart (imag : Bool) (v : SVal) : R SVal :=
+  match v with
+  | .num (.untyped _) c =>
+    let (r, i) := asCplx c
+    .ok (.num (.untyped .float) (.re (if imag then i else r)))
+  | _ => .error .invalidOp
+
+/-- `complex(re, im)` on two untyped constants -/
+def sComplex (va vb : SVal) : R SVal :=
+  match va, vb with
+  | .num (.untyped _) a, .num (.untyped _) b =>
+    if !nZero (asCplx a).2 || !nZero (asCplx b).2 then .error .truncated
+    else .ok (.num (.untyped .complex) (.cplx (asCplx a).1 (asCplx b).1))
+  | _, _ => .error .invalidOp
 
 /-- `parseBasicLiteral(FloatLiteral)`: a literal whose 512-bit value needs fewer than 53 bits is a
 float64Const, any other (moderate) literal a ratConst with the exact value -/
 def sFloatLit (q : Rat) : NC := if repQ 52 q then .f64 q else .rat q
 
+/-- `parseBasicLiteral(ImaginaryLiteral)`: the imaginary part of `123i` is parsed as an integer
+literal, that of `1.5i` as a floating-point literal -/
+def sImagLit (q : Rat) : R NC :=
+  if isIntegral q then do .ok (.int (← sLit q.num.toNat)) else .ok (sFloatLit q)
+
 def evalScriggo : Expr → R SVal
-  | .lit n => do .ok (.num (.untyped .int) (.int (← sLit n)))
-  | .rlit n => .ok (.num (.untyped .rune) (.int (.small (BitVec.ofNat 64 n))))
-  | .flit n d => .ok (.num (.untyped .float) (sFloatLit (mkRat n d)))
+  | .lit n => do .ok (.num (.untyped .int) (.re (.int (← sLit n))))
+  | .rlit n => .ok (.num (.untyped .rune) (.re (.int (.small (BitVec.ofNat 64 n)))))
+  | .flit n d => .ok (.num (.untyped .float) (.re (sFloatLit (mkRat n d))))
+  | .ilit n d => do .ok (.num (.untyped .complex) (.cplx (.int (.small 0#64)) (← sImagLit (mkRat n d))))
+  | .re e => do sPart false (← evalScriggo e)
+  | .im e => do sPart true (← evalScriggo e)
+  | .cx a b => do
+    let va ← evalScriggo a
+    let vb ← evalScriggo b
+    sComplex va vb
   | .conv k e => do sConv k (← evalScriggo e)
   | .un op e => do sUn op (← evalScriggo e)
   | .bin op a b => do
@@ -437,20 +620,29 @@ def tyName : Ty → String
   | .untyped .int => "untyped"
   | .untyped .rune => "untyped-rune"
   | .untyped .float => "untyped-float"
+  | .untyped .complex => "untyped-complex"
   | .typed k => kindName k
 
 def showRat (q : Rat) : String := s!"{q.num}/{q.den}"
 
+/-- a complex-kinded value is written with both parts, any other with its real part -/
+def showCQ (ty : Ty) (v : CQ) : String :=
+  if ty = .untyped .complex then s!"{showRat v.re} {showRat v.im}" else showRat v.re
+
 def showVal : R Val → String
-  | .ok (.num ty v) => s!"ok num {tyName ty} {showRat v}"
+  | .ok (.num ty v) => s!"ok num {tyName ty} {showCQ ty v}"
   | .ok (.bool b) => s!"ok bool {b}"
   | .error r => "err " ++ r.name
 
 def implName : Impl → String
   | .small => "small" | .big => "big" | .f64 => "f64" | .bigf => "bigf" | .rat => "rat"
 
+def ccImpl : CC → String
+  | .re c => implName c.impl
+  | .cplx r i => s!"cplx({implName r.impl},{implName i.impl})"
+
 def showSVal : R SVal → String
-  | .ok (.num ty c) => s!"ok num {tyName ty} {showRat c.val} {implName c.impl}"
+  | .ok (.num ty c) => s!"ok num {tyName ty} {showCQ ty c.val} {ccImpl c}"
   | .ok (.bool b) => s!"ok bool {b}"
   | .error r => "err " ++ r.name
 
